@@ -131,3 +131,23 @@ func VerifH_c19_kwp() {
 	verifrt.Assert(!verifrt.SameArray(u, wbuf), "unwrapped key shares no memory with the input")
 	verifrt.Reach("end")
 }
+
+// The upper end of the size range: payloads of 8184, 8185 and 8192 bytes (wrappings of 8192
+// and 8200 bytes) still equal RFC 5649 and unwrap to themselves; 8193 is refused.
+func VerifH_kwp_maxsize() {
+	kek := verifrt.Bytes("kek", 16)
+	n := [...]int{8184, 8185, 8192}[verifrt.Choice("n", 3)]
+	data := make([]byte, n)
+	copy(data, verifrt.Bytes("head", 9))
+	copy(data[n-9:], verifrt.Bytes("tail", 9))
+	k, _ := NewKWP(kek)
+	w, err := k.Wrap(data)
+	verifrt.Assert(err == nil && len(w) == 8*((n+7)/8)+8, "Wrap accepts payloads up to 8192 bytes")
+	verifrt.AssertEq(w, verifspec.KWPWrap(kek, data), "Wrap == RFC 5649 at the upper size limit")
+	u, err := k.Unwrap(w)
+	verifrt.Assert(err == nil, "Unwrap accepts the wrapping of a maximum-size key")
+	verifrt.AssertEq(u, data, "Unwrap inverts Wrap at the upper size limit")
+	_, err = k.Unwrap(make([]byte, 8208))
+	verifrt.Assert(err != nil, "Unwrap refuses wrappings longer than that of an 8192-byte key")
+	verifrt.Reach("end")
+}
